@@ -30,8 +30,19 @@ def f(a, b=2):
 class K:
     y = 3
 """
-# hostile variant: the body mutates the import path it sees and rebinds nothing (the replacement list is thrown away by sys_path)
-HOSTILE = 'import sys as _s\n_s.path.insert(0, "/c15-bogus-entry")\n_s.path.append("/c15-bogus-tail")\n'
+# cfg.pathmut: what every executable body does to sys.path before it can fail
+PATHMUT = {
+    "none": "",
+    "inplace": 'import sys as _s\n_s.path.insert(0, "/c15-bogus-entry")\n_s.path.append("/c15-bogus-tail")\n',
+    "rebind": 'import sys as _s\n_s.path = ["/c15-vendor", *_s.path]\n',
+}
+# concretisations of the abstract compiled kinds (every suffix ModuleFinder yields as a module besides .py / .pyi):
+#   "so" (importable here): sourceless .pyc, tagged extension module, plain .so, stable-ABI .abi3.so
+#   "xc" (compiled for the finder, not importable by this CPython): .pyd, tagged .pyd, .pyo
+SO_VARIANTS = ["pyc", "so", "plainso", "abi3so"]
+XC_VARIANTS = ["pyd", "tagpyd", "pyo"]
+XC_SUFFIX = {"pyd": ".pyd", "tagpyd": ".cp312-win_amd64.pyd", "pyo": ".pyo"}
+SO_SUFFIX = {"so": EXT_SUFFIX, "plainso": ".so", "abi3so": ".abi3.so"}
 FAULT_CODE = {
     "none": "",
     "raises": 'raise RuntimeError("c15 planned fault")',
@@ -54,9 +65,12 @@ static const char *CODE =
   "import os as _os, json as _json\n"
   "with open(_os.environ['C15_SENTINEL'], 'a') as _f:\n"
   "    _f.write(__name__ + '\\n')\n"
-  "if _os.environ.get('C15_HOSTILE') == '1':\n"
+  "if _os.environ.get('C15_PATHMUT') == 'inplace':\n"
   "    import sys as _s\n"
   "    _s.path.insert(0, '/c15-bogus-entry')\n"
+  "if _os.environ.get('C15_PATHMUT') == 'rebind':\n"
+  "    import sys as _s\n"
+  "    _s.path = ['/c15-vendor', *_s.path]\n"
   "_flt = _json.loads(_os.environ.get('C15_CFAULTS', '{}')).get(__name__, 'none')\n"
   "if _flt == 'raises':\n"
   "    raise RuntimeError('c15 planned fault')\n"
@@ -121,13 +135,14 @@ def model_id(cfg: dict, name: str) -> str | None:
 
 
 class Builder:
-    def __init__(self, cfg: dict, root: str, compiled_as: str, ext_so: str | None, hostile: bool = False):
+    def __init__(self, cfg: dict, root: str, compiled_as: str, ext_so: str | None, xc_as: str = "pyd"):
         self.cfg = cfg
-        self.hostile = hostile
+        self.xc_as = xc_as
         self.root = root
         self.sp = os.path.join(root, "sp")
         self.sentinel = os.path.join(root, "sentinel")
         self.compiled_as = compiled_as if (compiled_as == "pyc" or ext_so) else "pyc"
+        self.pathmut = cfg.get("pathmut", "none")
         self.ext_so = ext_so
         self.cfaults: dict = {}
         self.files: dict = {}
@@ -138,7 +153,7 @@ class Builder:
             fh.write(text)
 
     def _code(self, m: str, extra: str = "") -> str:
-        return BODY.format(fault=FAULT_CODE[self.cfg["fault"][m]], hostile=HOSTILE if self.hostile else "") + extra
+        return BODY.format(fault=FAULT_CODE[self.cfg["fault"][m]], hostile=PATHMUT[self.pathmut]) + extra
 
     def _module(self, m: str, kind: str, directory: str, stem: str, extra: str = ""):
         """Write module `m` of `kind` as <directory>/<stem>.<suffix>."""
@@ -149,9 +164,14 @@ class Builder:
         elif kind == "pyi":
             path = os.path.join(directory, stem + ".pyi")
             self._write(path, STUB + extra)
+        elif kind == "xc":
+            # a compiled module of another platform / a legacy optimised byte-code file: bytes CPython here never loads
+            path = os.path.join(directory, stem + XC_SUFFIX[self.xc_as])
+            with open(path, "wb") as fh:
+                fh.write(b"MZ\x90\x00 not importable on this platform\n")
         elif kind == "so":
-            if self.compiled_as == "so":
-                path = os.path.join(directory, stem + EXT_SUFFIX)
+            if self.compiled_as in SO_SUFFIX:
+                path = os.path.join(directory, stem + SO_SUFFIX[self.compiled_as])
                 shutil.copyfile(self.ext_so, path)
                 self.cfaults[pyname(self.cfg, m)] = self.cfg["fault"][m]
             else:
@@ -172,7 +192,7 @@ class Builder:
         top = file["p"]
         holder = HOLDER[cfg["extstyle"]].format(ext=ext_name(cfg))
         pdir = os.path.join(self.sp, "p")
-        if top in ("py", "pyi", "so"):
+        if top in ("py", "pyi", "so", "xc"):
             self._module("p", top, pdir, "__init__", holder if top in ("py", "pyi") else "")
             if cfg["stubs"] == "inpkg" and top == "py":
                 self._write(os.path.join(pdir, "__init__.pyi"), STUB)
@@ -180,7 +200,7 @@ class Builder:
             os.makedirs(pdir, exist_ok=True)
         elif top == "sofile":
             self._module("p", "so", self.sp, "p")
-        if top in ("py", "pyi", "so", "ns"):
+        if top in ("py", "pyi", "so", "xc", "ns"):
             if cfg["layout"] == "flat":
                 for m in ("a", "b"):
                     if file[m] != "missing":
